@@ -124,14 +124,14 @@ class Driver:
             ev["exc"] = "%s: %s" % (type(ex).__name__, str(ex)[:100])
             return ev, None
 
-    def random_set(self, rnd, dated):
+    def random_set(self, rnd, dated, limits=False):
         gc = self.gc
         vals = [round(rnd.uniform(-1000, 1000), 4), round(rnd.uniform(-1000, 1000), 4), round(rnd.uniform(-1000, 1000), 4),
                 round(rnd.uniform(-100, 100), 6), round(rnd.uniform(-59.9, 59.9), 7), round(rnd.uniform(-59.9, 59.9), 7),
                 round(rnd.uniform(-59.9, 59.9), 7)]
-        if rnd.random() < 0.3:
+        if not limits and rnd.random() < 0.3:
             vals = [round(v / 1000.0, 7) for v in vals]
-        elif rnd.random() < 0.3:
+        elif limits or rnd.random() < 0.3:
             # the limits of the quantifier: |t| = 1000 m, |scale| = 100 ppm, rotations a hair below one arc-minute
             # (a dated set is advanced by up to 0.002"/yr x 80 yr before the 7-parameter formula sees it: keep the advanced rotation
             #  below one arc-minute too, or the call leaves the domain of C06 / C07)
@@ -198,6 +198,20 @@ def traces_c06(drv, rnd, quick):
         for v in psd_inputs(np, rnd)[k % 3::3]:
             ev, _ = drv.event("C7", None, rnd.choice(pts[:8] + pts[-1:]), vin=v, rset=(t, p14, ep), sd_built=[fix.enc(x) for x in sds])
             traces.append({"kind": "vcv_built", "ev": [ev]})
+    # the far corner of the quantifier, constructed in every run: a set at the limits (|t| = 1000 m, |scale| = 100 ppm, rotations a
+    # hair below one arc-minute) applied to the corner |x| = |y| = |z| = 5e7 m of every octant - where a relative error of the
+    # rotation (a shortened unit constant) weighs most: rotation x coordinate = 14.5 km
+    for k in range(8 if quick else 64):
+        rs = drv.random_set(rnd, False, limits=True)
+        c = 5.0e7 if k < 8 else round(rnd.uniform(3.0e7, 5.0e7), 4)
+        p = [c * (1 if (k >> b) & 1 else -1) for b in range(3)]
+        e1, o = drv.event("C7", None, p, rset=rs)
+        evs = [e1]
+        if o is not None:
+            t, p14, ep = rs
+            e2, _ = drv.event("C7", None, list(o), rset=(-t, [fix.enc(-fix.dec(x)) for x in p14], ep), closes=True)
+            evs.append(e2)
+        traces.append({"kind": "random_pair", "ev": evs})
     return traces
 
 
